@@ -1,33 +1,35 @@
 use rusty_linter::core::CastVariant;
 use rusty_parser::TypeQualifier;
+use rusty_variant::Variant;
 
 use crate::RuntimeError;
 use crate::interpreter::interpreter_trait::InterpreterTrait;
 
 pub fn and<T: InterpreterTrait>(interpreter: &mut T) -> Result<(), RuntimeError> {
-    let a = interpreter
-        .registers()
-        .get_a()
-        .cast(TypeQualifier::PercentInteger)?;
-    let b = interpreter
-        .registers()
-        .get_b()
-        .cast(TypeQualifier::PercentInteger)?;
+    let (a, b) = logical_operands(interpreter)?;
     interpreter.registers_mut().set_a(a.and(b)?);
     Ok(())
 }
 
 pub fn or<T: InterpreterTrait>(interpreter: &mut T) -> Result<(), RuntimeError> {
-    let a = interpreter
-        .registers()
-        .get_a()
-        .cast(TypeQualifier::PercentInteger)?;
-    let b = interpreter
-        .registers()
-        .get_b()
-        .cast(TypeQualifier::PercentInteger)?;
+    let (a, b) = logical_operands(interpreter)?;
     interpreter.registers_mut().set_a(a.or(b)?);
     Ok(())
+}
+
+/// Gets the operands of a logical operator from registers A and B.
+/// Two integers are used as-is, otherwise both operands are converted to long.
+fn logical_operands<T: InterpreterTrait>(
+    interpreter: &mut T,
+) -> Result<(Variant, Variant), RuntimeError> {
+    let a = interpreter.registers().get_a();
+    let b = interpreter.registers().get_b();
+    let q = if matches!((&a, &b), (Variant::VInteger(_), Variant::VInteger(_))) {
+        TypeQualifier::PercentInteger
+    } else {
+        TypeQualifier::AmpersandLong
+    };
+    Ok((a.cast(q)?, b.cast(q)?))
 }
 
 pub fn negate_a<T: InterpreterTrait>(interpreter: &mut T) -> Result<(), RuntimeError> {
